@@ -341,6 +341,18 @@ func moveOutDir(w *bytes.Buffer, value json.RawMessage,
 	return errs.If()
 }
 
+// The type of the elements of an array value: for a multi-dimensional
+// array that is an array of one dimension less.
+func arrayElementType(t *syntax.ArrayType) syntax.Type {
+	if t.Dim > 1 {
+		return &syntax.ArrayType{
+			Elem: t.Elem,
+			Dim:  t.Dim - 1,
+		}
+	}
+	return t.Elem
+}
+
 func moveOutArrayDir(w *bytes.Buffer, value json.RawMessage,
 	t *syntax.ArrayType,
 	member *syntax.StructMember, lookup *syntax.TypeLookup,
@@ -360,10 +372,11 @@ func moveOutArrayDir(w *bytes.Buffer, value json.RawMessage,
 	if _, err := w.WriteString("[\n"); err != nil {
 		return err
 	}
+	elem := arrayElementType(t)
 	p := syntax.StructMember{
-		Tname: t.Elem.TypeId(),
+		Tname: elem.TypeId(),
 	}
-	p.CacheIsFile(t.Elem)
+	p.CacheIsFile(elem)
 	width := util.WidthForInt(len(valueArr))
 	var errs syntax.ErrorList
 	for i, v := range valueArr {
@@ -376,7 +389,7 @@ func moveOutArrayDir(w *bytes.Buffer, value json.RawMessage,
 		p.Id = k
 		if err := moveOutFiles(w,
 			&p,
-			t.Elem.IsFile(),
+			elem.IsFile(),
 			v,
 			lookup,
 			pipestancePath,
@@ -814,10 +827,11 @@ func printOutArrayDir(w *bytes.Buffer, value json.RawMessage,
 	}
 	width := util.WidthForInt(len(valueArr))
 	newIndent := makeNewIndent(indent, width)
+	elem := arrayElementType(t)
 	p := syntax.StructMember{
-		Tname: t.Elem.TypeId(),
+		Tname: elem.TypeId(),
 	}
-	p.CacheIsFile(t.Elem)
+	p.CacheIsFile(elem)
 	var errs syntax.ErrorList
 	for i, v := range valueArr {
 		if _, err := w.Write(newIndent); err != nil {
@@ -833,7 +847,7 @@ func printOutArrayDir(w *bytes.Buffer, value json.RawMessage,
 		p.Id = k
 		if err := printOutParam(w,
 			&p,
-			t.Elem.IsFile(),
+			elem.IsFile(),
 			v,
 			lookup,
 			newIndent[:1], newIndent); err != nil {
